@@ -20,8 +20,8 @@ CLAIMED = {
  "C12": ("A", "6 C12", "Random public-API histories (add/remove/disconnect/local clients/status setters/transport disconnect) with monitors: finality and first reason of every connection object, dead connections emit/accept/yield nothing, strict event alternation and event reason = first reason; reference event queue compared at every poll (polled after every call or once per tick); every cause of disconnection takes effect in every live state."),
  "C13": ("A", "6 C13", "Every packet from get_packets_to_send <= 1300 bytes and serialization never fails, with counter teleport across varint widths and burst-reverse-sparse arrivals that grow the ack list; no ack packet carries more than 64 ranges."),
  "C14": ("A", "6 C14", "Per flush, decoded with the crate's codec: payload bytes <= budget; no eligible item of an earlier channel unsent while later channels were served with enough bytes; unreliable messages whole-or-nothing in exactly one flush."),
- "C15": ("A", "6 C15", "Per item transmission ledger on the sender clock: never earlier than resend_time, always at the first flush where the timer elapsed and budget is left, never after the reference model processed an ack for it (3 s horizon modelled); acknowledged within a bound after heal."),
- "C16": ("A", "6 C16", "PARTIAL CLAIM: the ack clause (ack packet == recorded set == reference model of the pending set, newest 64 ranges, well-formed) is decided by simulation; round-trip clauses are monitored on all simulated traffic and on decodable hostile strings only. The all-inputs clauses are not decided by this family (see DESIGN.md C16)."),
+ "C15": ("A", "6 C15", "Per item transmission ledger on the sender clock: never earlier than resend_time, always at the first flush where the timer elapsed and budget is left, never after the reference model processed an ack for it (3 s horizon modelled; acks read from the wire bytes by the harness's own decoder); acknowledged within a bound after heal."),
+ "C16": ("A", "6 C16", "PARTIAL CLAIM: the ack clause (ack packet == recorded set == reference model of the pending set, newest 64 ranges, well-formed) is decided by simulation; round-trip clauses are monitored on all simulated traffic, on decodable hostile strings and on tokens with edge lifetimes only. The all-inputs clauses are not decided by this family (see DESIGN.md C16)."),
 }
 PENDING = {
  "C04": "engine B (netcode) not built yet in this revision",
@@ -69,7 +69,8 @@ m = {
   },
   "engines": [
     {"name": "A", "path": "sim/src/eng_a", "serves_properties": sorted(p for p in CLAIMED if CLAIMED[p][0]=="A"), "kind_free_text": "real RenetServer + RenetClients over simulated packet pools; reference models of sent-packet map, pending-ack set, message ledgers"},
-    {"name": "B", "path": "sim/src/eng_b", "serves_properties": sorted(p for p in CLAIMED if CLAIMED[p][0]=="B"), "kind_free_text": "real NetcodeServer + NetcodeClients + on-path adversary over a simulated datagram network with seeded RNG"},
+    {"name": "B", "path": "sim/src/eng_b", "serves_properties": sorted(p for p in CLAIMED if "B" in CLAIMED[p][0].split("+")), "kind_free_text": "real NetcodeServer + NetcodeClients + on-path adversary over a simulated datagram network with seeded RNG"},
+    {"name": "D", "path": "sim/src/eng_d.rs", "serves_properties": sorted(p for p in CLAIMED if "D" in CLAIMED[p][0].split("+")), "kind_free_text": "real NetcodeServer with its tables at their real sizes (limit up to the 1024-client ceiling) + up to 1100 real NetcodeClients on an immediate loss-free hand-over; the seeded schedule orders handshake stages, limit changes, disconnects, crashes and ticks"},
     {"name": "C", "path": "sim/src/eng_c", "serves_properties": sorted(p for p in CLAIMED if CLAIMED[p][0]=="C"), "kind_free_text": "real renet_netcode transports + RenetServer/RenetClient over a simulated UdpSocket with an in-path relay"},
   ],
   "checks": checks,
